@@ -1658,8 +1658,8 @@ def check_c19_steps(prog, pdesc, rs, r, res, ledger, objects, case):
                 actual = I.by_base({solv: added})
                 toks = I.tokens(text)
                 # the request itself is restated ("up to 5 mL", "to 0.1 M"); one *other* token must be the amount added
-                if added != 0 and not any(I.token_matches(t_, actual) for t_ in toks):
-                    bad = 'amount_added'
+                if added != 0 and not any(I.token_matches(t_, actual) and actual.get(t_[2]) for t_ in toks):
+                    bad = 'amount_added'      # (a token in a base in which the amount is zero - '0.0 L' of a solid without volume - states nothing)
             else:
                 # plate: every distinct per-well amount must be stated
                 deltas = []
@@ -1673,6 +1673,9 @@ def check_c19_steps(prog, pdesc, rs, r, res, ledger, objects, case):
                     actual = I.by_base({solv: d})
                     if actual['L'] * 1e6 >= 0.5 and not any(I.token_matches(t_, actual) for t_ in toks):
                         bad = 'per_well_amount'
+                        break
+                    if actual['L'] == 0 and actual['g'] >= 0.5e-6 and not any(I.token_matches(t_, actual) and actual.get(t_[2]) for t_ in toks):
+                        bad = 'per_well_amount'      # (a solvent without volume: stated by mass or activity)
                         break
                 if bad is None and st['dst'][1] is None:
                     if fill_addresses_wrong(text, res[t], b4, af, solv):
@@ -1731,6 +1734,22 @@ def check_c19_steps(prog, pdesc, rs, r, res, ledger, objects, case):
         elif op == 'create_container':
             if st['name'] not in text:
                 bad = 'names'
+            else:
+                # what goes into the container is what the step adds: every substance with its amount
+                held = ledger[k + 1].get(st['name']) or {}
+                for s_, a_ in held.items():
+                    if a_ == 0:
+                        continue
+                    M.count('INSTR.recipe_step_initial_contents')
+                    if s_.name not in text:
+                        bad = 'initial_contents_not_named'
+                        break
+                    actual = I.by_base({s_: a_})
+                    if not any(I.token_matches(t_, actual) and actual.get(t_[2]) for t_ in I.tokens(text)):
+                        bad = 'initial_contents_amount'
+                        break
+                if held and not bad:
+                    M.bucket('C19/recipe/create_container/with_contents')
         if bad:
             M.violate(['C19'], 'INSTR', f'C19:recipe_step_instruction_wrong:{op}:{bad}',
                       {'step': k, 'instruction': text, 'program_step': pdesc['steps'][[i for i, s in enumerate(prog['steps']) if s is st][0]]})
